@@ -782,7 +782,7 @@ def run_c14(tier, seed, wd, info, verdict):
                 dd = DUTY_OF.get(ch)
                 base = dict(da if dd == "A" else (db if dd == "B" else dold))
                 base.update(inst=inst, duty=a if dd == "A" else (b if dd == "B" else "r%d:O" % ri), variant=variants[(ri + qi + inst) % 4] if base["kind"] == "att" else "single",
-                            by=("name", "key")[(ri + qi) % 2], filler=1000 * (ri + 1) + 10 * qi + inst)
+                            by=("name", "key", "keypad", "key", "name", "keypad")[(ri + qi + (2 if dd == "B" else 0)) % 6], filler=1000 * (ri + 1) + 10 * qi + inst)
                 if ch in FAULT_OF:
                     base["fault"] = FAULT_OF[ch]
                 duties.append(base)
